@@ -10,6 +10,8 @@ import (
 	"path/filepath"
 	"reflect"
 	"sort"
+	"sync/atomic"
+	"time"
 
 	"github.com/facebookincubator/tacquito/cmds/server/config"
 	"github.com/facebookincubator/tacquito/cmds/server/config/accounters/local"
@@ -30,6 +32,7 @@ type RDoc struct {
 	MinOK  bool   `json:"minok"`  // has >= 1 secret and >= 1 user
 }
 type RHist struct {
+	Burst  bool     `json:"burst,omitempty"` // feed the documents back to back while the update loop is held inside its first build
 	ID     string   `json:"id"`
 	Fmt    string   `json:"fmt"`  // yaml | json
 	Via    string   `json:"via"`  // unmarshal | load
@@ -121,6 +124,10 @@ func cmdReload(args []string) {
 			}
 			n++
 			rec.Emit(E{"e": "reset", "sc": h.ID})
+			if h.Burst {
+				r.burst(&h)
+				continue
+			}
 			fl := newFileLoader(h.Fmt)
 			var held []config.ServerConfig // every value received from Config(), kept as received
 			var snaps []string             // its normal form at the time it was received
@@ -230,4 +237,77 @@ func unwrapStart(h interface{}) (userGetter, bool) {
 		}
 	}
 	return nil, false
+}
+
+// burst: the file loader feeds a real loader.Loader directly; the update loop is parked inside its first build()
+// (at a logger call) while the remaining documents are loaded back to back. Every document is good, so once
+// everything has settled the Loader must answer like a fresh one built from the LAST document.
+func (r *refRun) burst(h *RHist) {
+	rec := r.rec
+	fl := newFileLoader(h.Fmt)
+	var consumed int32
+	loader.VerifHook = func(ev string, a ...interface{}) {
+		if ev == "l.filters" {
+			atomic.AddInt32(&consumed, 1)
+		}
+	}
+	defer func() { loader.VerifHook = nil }()
+	acc, _ := local.New(r.log, local.SetLogSink(r.sink))
+	parked, release := r.log.ArmGate()
+	long, err := loader.NewLoader(context.Background(), fl,
+		loader.SetLoggerProvider(r.log), loader.SetKeychainProvider(secret.New()), loader.SetConfigProvider(config.New()),
+		loader.SetAuthorizerProvider(stringy.New(r.log)), loader.RegisterSecretProviderType(config.PREFIX, prefix.New(r.log)),
+		loader.RegisterHandlerType(config.START, handlers.NewStart(r.log)), loader.RegisterAuthenticator(config.BCRYPT, bcrypt.New(r.log, okSecret{})),
+		loader.RegisterAccounter(config.FILE, acc))
+	if err != nil {
+		panic(err)
+	}
+	okAll := true
+	if e := fl.Unmarshal([]byte(h.Docs[0].Text)); e != nil {
+		okAll = false
+	}
+	held := false
+	select {
+	case <-parked:
+		held = true
+	case <-time.After(2 * time.Second):
+		r.log.Disarm()
+	}
+	done := make(chan struct{})
+	go func() {
+		for _, d := range h.Docs[1:] {
+			if e := fl.Unmarshal([]byte(d.Text)); e != nil {
+				okAll = false
+			}
+		}
+		close(done)
+	}()
+	time.Sleep(2 * time.Millisecond) // let the back-to-back loads reach the channel while the loop is held
+	if held {
+		close(release)
+	}
+	select {
+	case <-done:
+	case <-time.After(3 * time.Second):
+	}
+	for i := 0; i < 3000 && int(atomic.LoadInt32(&consumed)) < len(h.Docs); i++ {
+		time.Sleep(time.Millisecond)
+	}
+	nconsumed := int(atomic.LoadInt32(&consumed)) // before the reference loader below adds its own install
+	last := h.Docs[len(h.Docs)-1]
+	ff := newFileLoader(h.Fmt)
+	var fresh config.ServerConfig
+	if ff.Unmarshal([]byte(last.Text)) == nil {
+		fresh = <-ff.Config()
+	}
+	fch := chanCfg{ch: make(chan config.ServerConfig, 1)}
+	freshL := r.newLoader(fch)
+	fch.ch <- fresh
+	freshL.BlockUntilLoaded()
+	rec.Emit(E{"e": "burst", "held": held, "ok": okAll, "consumed": nconsumed, "docs": len(h.Docs)})
+	for _, a := range h.Probes {
+		ok1, k1, u1 := probeLoader(long, a, h.Users)
+		ok2, k2, u2 := probeLoader(freshL, a, h.Users)
+		rec.Emit(E{"e": "probe", "i": len(h.Docs), "addr": a, "ok": ok1, "key": string(k1), "users": u1, "fok": ok2, "fkey": string(k2), "fusers": u2})
+	}
 }
